@@ -82,6 +82,7 @@ type c15In struct {
 	Chals []c15Chal `json:"chals"`
 	Ops   []c15Op   `json:"ops"`
 	Query c15Query  `json:"query"`
+	E2E   *c15E2E   `json:"e2e,omitempty"` // the case comes from a real order questioned at another node (c15_e2e.go)
 }
 
 func (c c15Chal) acme() acme.Challenge {
@@ -459,6 +460,85 @@ func c15Tables(e *emit.Enc, strs []string, reqStrs []string, chalStrs []string) 
 	}
 }
 
+// c15Wire encodes one case: tables, issuer keys, history, observed memory / token keys, the
+// request and what it got.
+func c15Wire(own *c15OwnAnswers, issKeys []string, chals []c15Chal, ops []c15Op, memObs [][2]any, storeObs []string, q c15Query, u *url.URL, obs c15Obs) *emit.Enc {
+	upath := ""
+	if u != nil {
+		upath = u.Path
+	}
+	enc := &emit.Enc{}
+	strs := append([]string{}, issKeys...)
+	var chalStrs []string
+	for _, c := range chals {
+		k := c15KeyOf(c.acme())
+		own.chal(c.acme())
+		strs = append(strs, c.Ident, k)
+		chalStrs = append(chalStrs, c.Ident, k)
+	}
+	for _, op := range ops {
+		strs = append(strs, op.Name)
+	}
+	var reqStrs []string
+	if q.Kind == "http" {
+		reqStrs = []string{q.Host}
+	} else {
+		reqStrs = []string{q.SNI}
+	}
+	strs = append(strs, reqStrs...)
+	c15Tables(enc, strs, reqStrs, chalStrs)
+	enc.StrList(issKeys)
+	enc.Len(len(ops))
+	for _, op := range ops {
+		pl := map[string]int{"local": 0, "remote": 1, "mem": 2}[op.Place]
+		switch op.Kind {
+		case "present":
+			enc.Int(0).Int(pl).Int(op.J)
+			c15EncChal(enc, chals[op.C])
+		case "clean":
+			enc.Int(1).Int(pl).Int(op.J)
+			c15EncChal(enc, chals[op.C])
+		case "tamper":
+			enc.Int(2).Int(op.J).Str(op.Name).Int(map[string]int{"delete": 0, "corrupt": 1, "empty": 2}[op.V])
+		case "ask":
+			enc.Int(3)
+		}
+	}
+	enc.Len(len(memObs))
+	for _, m := range memObs {
+		enc.Str(m[0].(string)).Bool(m[1].(bool))
+	}
+	enc.StrList(storeObs)
+	if q.Kind == "http" {
+		enc.Int(0).Bool(q.Disabled).Bool(q.LoadFault).Str(q.Method).Str(upath).Str(q.Host)
+		if obs.Handled {
+			b := obs.Body
+			enc.OptStr(&b)
+		} else {
+			enc.OptStr(nil)
+		}
+	} else {
+		enc.Int(1).Bool(q.LoadFault).Str(q.SNI).StrList(q.Protos)
+		switch obs.Class {
+		case "challenge-cert":
+			enc.Int(0)
+			if obs.KeyAuthOf >= 0 {
+				enc.Bool(true)
+				c15EncChal(enc, chals[obs.KeyAuthOf])
+			} else {
+				enc.Bool(false)
+			}
+		case "challenge-error":
+			enc.Int(1).Bool(false)
+		case "normal":
+			enc.Int(2).Bool(false)
+		default:
+			enc.Int(9).Bool(false)
+		}
+	}
+	return enc
+}
+
 type c15Runner struct {
 	env *c15Env
 	w   *emit.Writer
@@ -497,75 +577,11 @@ func (r *c15Runner) runScenario(chals []c15Chal, ops []c15Op, queries []c15Query
 			obs.MemKeys = append(obs.MemKeys, m.Key)
 		}
 		obs.StoreKeys = storeObs
-		enc := &emit.Enc{}
-		strs := append([]string{}, issKeys...)
-		var chalStrs []string
-		for _, c := range chals {
-			k := c15KeyOf(c.acme())
-			e.own.chal(c.acme())
-			strs = append(strs, c.Ident, k)
-			chalStrs = append(chalStrs, c.Ident, k)
-		}
-		for _, op := range ops {
-			strs = append(strs, op.Name)
-		}
-		var reqStrs []string
-		if q.Kind == "http" {
-			reqStrs = []string{q.Host}
-		} else {
-			reqStrs = []string{q.SNI}
-		}
-		strs = append(strs, reqStrs...)
-		c15Tables(enc, strs, reqStrs, chalStrs)
-		enc.StrList(issKeys)
-		enc.Len(len(ops))
-		for _, op := range ops {
-			pl := map[string]int{"local": 0, "remote": 1, "mem": 2}[op.Place]
-			switch op.Kind {
-			case "present":
-				enc.Int(0).Int(pl).Int(op.J)
-				c15EncChal(enc, chals[op.C])
-			case "clean":
-				enc.Int(1).Int(pl).Int(op.J)
-				c15EncChal(enc, chals[op.C])
-			case "tamper":
-				enc.Int(2).Int(op.J).Str(op.Name).Int(map[string]int{"delete": 0, "corrupt": 1, "empty": 2}[op.V])
-			case "ask":
-				enc.Int(3)
-			}
-		}
-		enc.Len(len(memObs))
+		memKH := make([][2]any, 0, len(memObs))
 		for _, m := range memObs {
-			enc.Str(m.Key).Bool(m.HasData)
+			memKH = append(memKH, [2]any{m.Key, m.HasData})
 		}
-		enc.StrList(storeObs)
-		if q.Kind == "http" {
-			enc.Int(0).Bool(q.Disabled).Bool(q.LoadFault).Str(q.Method).Str(u.Path).Str(q.Host)
-			if obs.Handled {
-				b := obs.Body
-				enc.OptStr(&b)
-			} else {
-				enc.OptStr(nil)
-			}
-		} else {
-			enc.Int(1).Bool(q.LoadFault).Str(q.SNI).StrList(q.Protos)
-			switch obs.Class {
-			case "challenge-cert":
-				enc.Int(0)
-				if obs.KeyAuthOf >= 0 {
-					enc.Bool(true)
-					c15EncChal(enc, chals[obs.KeyAuthOf])
-				} else {
-					enc.Bool(false)
-				}
-			case "challenge-error":
-				enc.Int(1).Bool(false)
-			case "normal":
-				enc.Int(2).Bool(false)
-			default:
-				enc.Int(9).Bool(false)
-			}
-		}
+		enc := c15Wire(&e.own, issKeys, chals, ops, memKH, storeObs, q, u, obs)
 		desc := map[string]any{}
 		for k, v := range descs[qi] {
 			desc[k] = v
@@ -835,6 +851,14 @@ func runC15(tier string, seed int64, outdir string, replay string) error {
 		for k, v := range rc.Desc {
 			d[k] = v
 		}
+		if in.E2E != nil {
+			x, err := c15NewE2E(w, &env.own, env.host)
+			if err != nil {
+				return err
+			}
+			defer x.close()
+			return x.order(*in.E2E)
+		}
 		return run.runScenario(in.Chals, in.Ops, []c15Query{in.Query}, []map[string]any{d})
 	}
 
@@ -999,5 +1023,25 @@ func runC15(tier string, seed int64, outdir string, replay string) error {
 		}
 		w.Hist("scenario=" + s.name)
 	}
+	// ---- end-to-end: real orders on this node, validation requests at another node (another
+	// process) sharing the storage
+	x, err := c15NewE2E(w, &env.own, env.host)
+	if err != nil {
+		return err
+	}
+	defer x.close()
+	e2e := []c15E2E{{"http-01", "a.example"}, {"tls-alpn-01", "a.example"}, {"tls-alpn-01", "192.0.2.7"}, {"http-01", "2001:db8::7"}}
+	if thorough {
+		e2e = append(e2e, c15E2E{"http-01", "192.0.2.7"}, c15E2E{"tls-alpn-01", "2001:db8::7"}, c15E2E{"http-01", "b-2.sub.example"}, c15E2E{"tls-alpn-01", "kiosk.example"})
+	}
+	for _, sc := range e2e {
+		if err := x.order(sc); err != nil {
+			return err
+		}
+	}
+	w.Meta.Oracles = append(w.Meta.Oracles, emit.OracleCheck{
+		Name:   fmt.Sprintf("end-to-end: %d real orders (ACMEIssuer.Issue against the mock CA) whose validation requests were answered by another node (second process on the same file storage); %d requests sent to that node", len(e2e), x.n),
+		OK:     len(x.bad) == 0,
+		Detail: strings.Join(x.bad, "; ")})
 	return nil
 }
